@@ -89,6 +89,12 @@ def _assemble(desc):
     else:
         n = rng.randint(1, 30)
         V = np.array([[rng.uniform(-1, 1) for _ in range(3)] for _ in range(n)])
+    if desc.get("route") == "from_arrays" and not C and desc["seed"] % 3 != 1:
+        # flat data: the caller gives (x, y) only - or x only - and from_arrays pads the missing coordinates with zeros
+        V = np.array(V, float)
+        V[:, 2] = 0.0
+        if kind in ("polyline", "points") and desc["seed"] % 2 == 0:
+            V[:, 1] = 0.0
     nV = len(V)
     # declared edges
     sides = set()
@@ -220,7 +226,9 @@ def _construct(ctx, inp, desc, irows, tmpdir):
         Va = np.array(V, float)
         planar = bool(np.all(Va[:, 2] == 0))
         if planar:
-            Va = Va[:, :2].copy()
+            ncol = 1 if bool(np.all(Va[:, 1] == 0)) else 2
+            ctx.cls("from_arrays:vertex_array_with_%d_columns" % ncol)
+            Va = Va[:, :ncol].copy()
         kw = {}
         if E:
             kw["E"] = np.array(E, dtype=np.int64)
